@@ -369,6 +369,20 @@ func (d *c18Data) noteVersion(items []c18Item) {
 	}
 }
 
+// c18BuiltinDefaults: see the removal edit. Only the two workload keys that have a
+// built-in default are named; convergence is judged on keys present in the final file and
+// on a key that never existed, so the built-in table itself is not mirrored.
+//
+//go:norace
+func c18BuiltinDefaults(d *c18Data) {
+	for k, v := range map[string]string{"debug": "false", "net_udp_port": "6600"} {
+		if d.ever[k] == nil {
+			d.ever[k] = map[string]bool{}
+		}
+		d.ever[k][v] = true
+	}
+}
+
 //go:norace
 func (d *c18Data) addGet(g *c18Get) { d.Gets = append(d.Gets, g) }
 
@@ -497,6 +511,21 @@ func c18Body(rc *RunCtx) {
 			for d.inWB != nil { // edits do not overlap a write-back (assumption)
 				simrt.Sleep(50 * time.Millisecond)
 			}
+			if !doWB && simrt.ChanceF(1, 8) {
+				// the file is moved away and, after a while, moved back untouched: same content,
+				// same modification time. Whatever the absence did to the configuration, the
+				// file's key=values must be visible again afterwards.
+				if back, ok := disk.DetachRaw(d.path); ok {
+					simrt.Fault("config_file_moved_away_and_back")
+					c18BuiltinDefaults(d)
+					simrt.Sleep(time.Duration([]int{500, 2900, 3100, 4000, 7000}[simrt.ChooseF(5)]) * time.Millisecond)
+					back()
+					d.EditMs = append(d.EditMs, simrt.NowNs()/1e6)
+					d.EditStamps = append(d.EditStamps, simrt.Stamp())
+					d.lastChange = simrt.Elapsed()
+					continue
+				}
+			}
 			next := c18GenFile(d.cur)
 			d.cur = next
 			d.Versions = append(d.Versions, next)
@@ -507,6 +536,18 @@ func c18Body(rc *RunCtx) {
 			}
 			d.EditMs = append(d.EditMs, nowMs)
 			d.EditStamps = append(d.EditStamps, simrt.Stamp())
+			if !doWB && simrt.ChanceF(1, 5) {
+				// the file disappears for a while (deployment tools delete and re-create): while it
+				// is away every key is absent; afterwards the new content must be picked up
+				simos.Remove(d.path)
+				simrt.Fault("config_file_removed")
+				// a reload that finds no file installs the product's built-in defaults, two of
+				// which are keys of this workload: from now on they explain a getter's result
+				c18BuiltinDefaults(d)
+				simrt.Sleep(time.Duration([]int{500, 2900, 3100, 4000, 7000}[simrt.ChooseF(5)]) * time.Millisecond)
+				d.EditMs[len(d.EditMs)-1] = simrt.NowNs() / 1e6
+				d.EditStamps[len(d.EditStamps)-1] = simrt.Stamp()
+			}
 			disk.ReplaceRaw(d.path, []byte(c18Render(next)))
 			simrt.Note("external edit #" + strconv.Itoa(e+1))
 			d.lastChange = simrt.Elapsed()
